@@ -322,8 +322,11 @@ def load_known():
 
 def settle(prop, tier, violations, coverage, level, assumptions, wall, inconclusive=None):
     """Print verdict lines, write evidence + replay files, return the exit code."""
-    os.makedirs(os.path.join(VERIF, 'evidence'), exist_ok=True)
-    os.makedirs(os.path.join(VERIF, 'replays'), exist_ok=True)
+    # self-tests (seeded changes, coverage surveys) send their output elsewhere so that the evidence
+    # of the last real run is not overwritten
+    out_root = os.environ.get('VERIF_OUT', VERIF)
+    os.makedirs(os.path.join(out_root, 'evidence'), exist_ok=True)
+    os.makedirs(os.path.join(out_root, 'replays'), exist_ok=True)
     known = load_known()
     by_key = {}
     for v in violations:
@@ -338,7 +341,7 @@ def settle(prop, tier, violations, coverage, level, assumptions, wall, inconclus
             continue
         real += 1
         h = hashlib.sha1(key.encode()).hexdigest()[:10]
-        rp = os.path.join(VERIF, 'replays', '%s-%s.json' % (prop, h))
+        rp = os.path.join(out_root, 'replays', '%s-%s.json' % (prop, h))
         with open(rp, 'w') as f:
             json.dump({'property': prop, 'key': key, 'occurrences': len(vs), 'tier': tier, 'seed': SEED,
                        'first': vs[0].to_json(), 'more': [v.to_json() for v in vs[1:4]]}, f, indent=1)
@@ -352,7 +355,7 @@ def settle(prop, tier, violations, coverage, level, assumptions, wall, inconclus
           'assumptions': assumptions, 'wall_s': round(wall, 2), 'violations': real}
     if inconclusive:
         ev['coverage']['inconclusive'] = inconclusive
-    with open(os.path.join(VERIF, 'evidence', prop + '.json'), 'w') as f:
+    with open(os.path.join(out_root, 'evidence', prop + '.json'), 'w') as f:
         json.dump(ev, f, indent=1, default=str)
     if real:
         return 1
